@@ -1145,6 +1145,10 @@ func (fx *fnExec) runHook(h Hook, env *SpecEnv, where string) {
 	fx.hookFired[h.Where+"|"+h.Event+"|"+h.Target] = true
 	guard := tTrue
 	if h.When != nil {
+		// a `when` that names a variable which does not exist yet at this program point cannot be about this point
+		if fx.hookStmtUnallocated(HookStmt{Kind: "assert", E: h.When}, env) {
+			return
+		}
 		guard = fx.evalBool(h.When, env)
 	}
 	for _, a := range h.Assigns {
@@ -1584,5 +1588,12 @@ func (fx *fnExec) hookStmtUnallocated(a HookStmt, env *SpecEnv) (bad bool) {
 		}
 	}()
 	fx.evalSpec(a.E, env)
+	if a.Kind == "assign" && ghostRoot(a.LHS) != a.LHS {
+		if lhs, err := parseSpec(a.LHS); err == nil {
+			if ix, ok := lhs.(EIndex); ok {
+				fx.evalSpec(ix.I, env)
+			}
+		}
+	}
 	return false
 }
